@@ -119,7 +119,7 @@ def decide(pid, tier, seed):
         bad = set()
         for t in tools:
             f = gi.func_at(t["line"]) if t["line"] else None
-            changed_code = f is not None and g["splice"]["functions"].get(f["name"], {}).get("status") == "transplanted"
+            changed_code = f is not None and g["splice"]["functions"].get(f["name"], {}).get("status") in ("transplanted", "quarantined")
             if f and f["mode"] == "exec" and not f["external_body"] and (changed_code or "not supported" in t["message"]
                                                                           or "unsupported" in t["message"].lower()
                                                                           or "does not yet support" in t["message"]):
